@@ -305,6 +305,12 @@ func (r *RegionScatterer) scatterRegion(region *core.RegionInfo, group string) *
 	// special engine stores if the engine supports to become a leader. But now there is only
 	// one engine, tiflash, which does not support the leader, so don't consider it for now.
 	targetLeader := r.selectAvailableLeaderStores(group, targetPeers, r.ordinaryEngine)
+	if targetLeader == 0 {
+		// No target store accepts a leader: leave the leader where it is as long as its peer stays.
+		if _, ok := targetPeers[region.GetLeader().GetStoreId()]; ok {
+			targetLeader = region.GetLeader().GetStoreId()
+		}
+	}
 
 	for engine, peers := range specialPeers {
 		ctx, ok := r.specialEngines[engine]
@@ -413,10 +419,16 @@ func (r *RegionScatterer) selectStore(group string, peer *metapb.Peer, sourceSto
 // the existed peers store depended on the leader counts in the group level.
 func (r *RegionScatterer) selectAvailableLeaderStores(group string, peers map[uint64]*metapb.Peer, context engineContext) uint64 {
 	leaderCandidateStores := make([]uint64, 0)
+	// Only a store that accepts leaders (not paused or rejecting leaders, not down, disconnected or busy) may
+	// be chosen: the operator is built with the force-target-leader flag and is not checked again.
+	leaderFilter := &filter.StoreStateFilter{ActionScope: regionScatterName, TransferLeader: true}
 	for storeID := range peers {
 		store := r.cluster.GetStore(storeID)
+		if store == nil {
+			continue
+		}
 		engine := store.GetLabelValue(filter.EngineKey)
-		if len(engine) < 1 {
+		if len(engine) < 1 && leaderFilter.Target(r.cluster.GetOpts(), store) {
 			leaderCandidateStores = append(leaderCandidateStores, storeID)
 		}
 	}
